@@ -459,6 +459,24 @@ class FnText:
             self.inserts.append((ty_end, ')'))
         self.inserts.append((body_open, '\n' + c['text'].rstrip('\n') + '\n'))
 
+    def body_open_offset(self):
+        toks, sig = self._toks()
+        k = 0
+        while toks[sig[k]][1] != 'fn':
+            k += 1
+        depth = 0
+        j = k
+        while True:
+            t = toks[sig[j]]
+            if t[0] == 'punct':
+                if t[1] in '([':
+                    depth += 1
+                elif t[1] in ')]':
+                    depth -= 1
+                elif t[1] == '{' and depth == 0:
+                    return t[2]
+            j += 1
+
     def loop_sites(self):
         """[(si_keyword, body_open_offset, in_offset_or_None)] in source order"""
         toks, sig = self._toks()
@@ -623,9 +641,14 @@ def extract_unit(spec_path, repo, out_path, meta_path=None, canary=None):
             if fn == fnpath:
                 ft.inject_closure(k, cspec)
                 used_closure.add((fn, k))
-        if canary == fnpath:
-            # before the closing brace of the fn
-            ft.inserts.append((len(text) - 1, '\n    assert(false); // CANARY\n'))
+        if canary in ('*', fnpath) and (fnpath in contracts['contract'] or canary == fnpath):
+            # vacuity canary: must FAIL at the start of the body (requires + assumed specs
+            # satisfiable) and at the start of every loop body that has a loop spec
+            ft.inserts.append((ft.body_open_offset() + 1, '\n    assert(false); // CANARY\n'))
+            sites = ft.loop_sites()
+            for (fn, k) in contracts['loop']:
+                if fn == fnpath and k < len(sites):
+                    ft.inserts.append((sites[k][1] + 1, '\n    assert(false); // CANARY\n'))
         if fnpath in contracts['attr']:
             chunks.append((contracts['attr'][fnpath], None))
             used_attr.add(fnpath)
@@ -709,7 +732,7 @@ def extract_unit(spec_path, repo, out_path, meta_path=None, canary=None):
                 if p['fn'] == item['name']:
                     ft.inject_proof(p)
                     used_proof.add(idx)
-            if canary == item['name']:
+            if canary in ('*', item['name']):
                 ft.inserts.append((len(sig_text) + 3, '    assert(false); // CANARY\n'))
             for t, l in ft.render():
                 chunks.append((t, (rel, l) if l else None))
@@ -744,6 +767,7 @@ def extract_unit(spec_path, repo, out_path, meta_path=None, canary=None):
             (contracts['main'] if contracts['main'].strip() else 'fn main() {}\n', None)]
     allchunks = pre + chunks + post
     out_text = ''.join(t for t, _ in allchunks)
+    out_text = out_text.replace('@VERIF@', os.path.dirname(os.path.dirname(os.path.abspath(__file__))))
     # line table: generated line -> (file, line)
     line_table = {}
     gl = 1
